@@ -9,6 +9,7 @@ EVICTS = [0, 1, 2, 3, 7, 200]
 
 class PolicyEngine(Engine):
     model_file = "Cache/Policy*.v"
+    exe = "policy"
 
     def __init__(self, pol, deterministic=True):
         self.pol = pol
@@ -19,7 +20,7 @@ class PolicyEngine(Engine):
         return 1500 if tier == "quick" else 30000
 
     def corpus(self):
-        p = "policy " + self.pol
+        p = self.pol
         return [p + " m 1 1 m 1 50 e 1",               # F-19 shape
                 p + " m 1 1 m 2 1 m 3 1 e 100",
                 p + " m 1 2 m 2 3 m 3 4 a 1 0 e 4",
@@ -30,7 +31,7 @@ class PolicyEngine(Engine):
     def gen(self, rng, tier):
         n = rng.pick([1, 2, 3, 5, 8, 13, 20, 40, 80, 200])
         nk = rng.pick([2, 3, 5, 8, 12])
-        toks = ["policy", self.pol]
+        toks = [self.pol]
         for _ in range(n):
             op = rng.weighted([("m", 40), ("a", 25), ("r", 10), ("e", 20), ("c", 2)])
             if op == "m":
@@ -47,7 +48,7 @@ class PolicyEngine(Engine):
 
     def split(self, line):
         t = line.split()
-        hdr, ops, i = t[:2], [], 2
+        hdr, ops, i = t[:1], [], 1
         ar = {"a": 3, "m": 3, "r": 2, "e": 2, "c": 1}
         while i < len(t):
             k = ar[t[i]]
